@@ -124,6 +124,7 @@ func init() {
 			{"ref-flow", "embed id = relationship id", ruleRefFlowImage},
 			{"rel-attach", "target ↔ part key", ruleRelAttachImage},
 			{"fresh-dep/relid", "image relationship ids depend on existing ids", ruleFreshRelIDImage},
+			{"config-pure", "image API never writes into the caller's ImageConfig/ImageSize (mutation summaries)", ruleConfigPure},
 		},
 		Assumptions: commonAssumptions,
 	}
@@ -135,6 +136,7 @@ func init() {
 			{"keyed-insert", "find-or-replace before append on keyed collections", func(r *Run) { ruleKeyedInsert(r, nil) }},
 			{"kind-injective", "getFileNameForType maps kinds to distinct constants", ruleKindInjective},
 			{"ref-flow", "reference id = relationship id", ruleRefFlowHF},
+			{"clone-alias", "rendered documents do not share header/footer reference objects with the template", ruleCloneAliasFor("SectionProperties", "HeaderFooterReference")},
 		},
 		Assumptions: commonAssumptions,
 	}
@@ -193,6 +195,7 @@ func init() {
 			{"regex-lazy", "always-empty capture groups that are consumed", ruleRegexLazy},
 			{"pass-order", "value-inserting passes precede no directive-interpreting pass", rulePassOrder},
 			{"closure-ret", "unknown variables stay", ruleClosureRet},
+			{"regex-repl-literal", "run-time strings never become an expanding regexp replacement ($-interpretation)", ruleRegexReplLiteral},
 		},
 		Assumptions: append([]string{"RE2 leftmost-first semantics as documented by package regexp"}, commonAssumptions...),
 	}
@@ -217,6 +220,7 @@ func init() {
 			{"clone-cover/map", "clone functions cover every field (object groups over access paths)", ruleCloneDocument},
 			{"raw-xml", "values spliced into header/footer XML are escaped", ruleRawXMLSplice},
 			{"closure-ret", "unknown variables stay", ruleClosureRet},
+			{"regex-repl-literal", "values never become an expanding regexp replacement ($-interpretation)", ruleRegexReplLiteral},
 		},
 		Assumptions: commonAssumptions,
 	}
@@ -227,6 +231,7 @@ func init() {
 		Rules: []Rule{
 			{"dispatch-exh", "node-kind classification vs type switches", ruleDispatchExh},
 			{"style-id", "emitted style ids ⊆ registry", func(r *Run) { ruleStyleID(r, pkgMd) }},
+			{"cross-call-state", "no renderer field carries values from one block to the next except the frozen, reasoned ones", ruleCrossCallState("WordRenderer", "(*WordRenderer).Render")},
 		},
 		Assumptions: append([]string{"goldmark v1.7.8 node set; classification table in the checker (one reason per kind)"}, commonAssumptions...),
 	}
@@ -237,6 +242,8 @@ func init() {
 		Rules: []Rule{
 			{"export-order", "emission driven by the ordered element list", ruleExportOrder},
 			{"export-esc/text", "run text escaped and emitted once", ruleExportEsc},
+			{"export-pure", "exporting never writes into the document (mutation summaries)", ruleExportPure},
+			{"cross-call-state", "no writer field carries content from one element to the next except the frozen, reasoned ones", ruleCrossCallState("MarkdownWriter", "(*MarkdownWriter).Write")},
 		},
 		Assumptions: commonAssumptions,
 	}
